@@ -50,7 +50,7 @@ pub const UN: &[(&str, fn(Value) -> Value)] = &[
     ("-", |a| Negative::make_call(a).into()),
 ];
 
-#[derive(Clone, Debug, Serialize, Deserialize)]
+#[derive(Clone, Debug, PartialEq, Serialize, Deserialize)]
 pub enum E {
     Id(String),
     Int(u64, u8),
@@ -308,6 +308,28 @@ fn join(tokens: &[String], fill: &dyn Fn(usize) -> Option<&'static str>) -> Stri
     s
 }
 
+/// minimal-parentheses rendering with single blanks (used by C08 / C18 to print generated programs)
+pub fn render_min(e: &E) -> String {
+    let mut t = vec![];
+    toks(e, false, &mut t);
+    let mut s = String::new();
+    for (i, x) in t.iter().enumerate() {
+        if i > 0 && !x.starts_with('}') && !t[i - 1].ends_with("${") {
+            s.push(' ');
+        }
+        s.push_str(x);
+    }
+    s
+}
+pub fn op_key_pub(e: &E) -> String {
+    op_key(e)
+}
+pub fn count_ops_pub(e: &E, levels: &mut Vec<u16>) {
+    count_ops(e, levels);
+    levels.sort();
+    levels.dedup();
+}
+
 fn describe(e: &E) -> String {
     let mut t = vec![];
     toks(e, false, &mut t);
@@ -446,6 +468,10 @@ fn check_expr(e: &E, fills: &[Vec<u16>], info: &mut CaseInfo) -> Result<(), Fail
                     );
                 }
             }
+            Err(err) if err.to_string().contains("nested too deep") => {
+                info.class("nesting-limit");
+                return Ok(());
+            }
             Err(err) => fail!(
                 format!("rejected:{}:{}", what, key),
                 "{:?} ({} parentheses) is rejected: {}",
@@ -493,6 +519,9 @@ fn check_expr(e: &E, fills: &[Vec<u16>], info: &mut CaseInfo) -> Result<(), Fail
                 if v != want {
                     fail!(format!("filler-changes-tree:{}:{}", kind, key), "{:?} parsed to {} but without filler to {}", src, v, want);
                 }
+            }
+            Err(err) if err.to_string().contains("nested too deep") => {
+                info.class("nesting-limit");
             }
             Err(err) => {
                 let in_template = matches!(e, E::Template(..)) || src.contains("${");
@@ -664,7 +693,7 @@ impl SubCheck for TableCheck {
         "table"
     }
     fn rule(&self) -> String {
-        "exhaustive over the README table: every operator and spelling alone (incl. mixed-case and/or/xor, ^^, >=, <=, >>>, _:, =~, !~, ?:, if, let, index, access, call, literals, arrays, tuples, templates), every expression tree with exactly 2 operator nodes over {23 binary, 3 unary, index/access/call, ?:} (2142 trees), and (quick: a seeded sample of 8000; thorough: all ~170 000) trees with 3 operator nodes; each printed with only the parentheses the table requires and fully parenthesised, each with 3 filler patterns (blank / block comment / eol comment incl. empty ones) at every token boundary; oracle: parses to the tree built directly from the builtin constructors; non-trivial = operators of >= 2 precedence levels or a comment filler".into()
+        "exhaustive over the README table: every operator and spelling alone (incl. mixed-case and/or/xor, ^^, >=, <=, >>>, _:, =~, !~, ?:, if, let, index, access, call, literals, arrays, tuples, templates), every expression tree with exactly 2 operator nodes over {23 binary, 3 unary, index/access/call, ?:} (2142 trees), and (quick: a seeded sample of 30000; thorough: all ~170 000) trees with 3 operator nodes; each printed with only the parentheses the table requires and fully parenthesised, each with 3 filler patterns (blank / block comment / eol comment incl. empty ones) at every token boundary; oracle: parses to the tree built directly from the builtin constructors; non-trivial = operators of >= 2 precedence levels or a comment filler".into()
     }
     fn run(&self, part: &mut Part) {
         let fills: Vec<Vec<u16>> = vec![vec![6000], vec![30000, 0, 50000, 20000], vec![45000, 65000, 9000, 0, 62000]];
@@ -677,7 +706,7 @@ impl SubCheck for TableCheck {
             part.exhaustive = true;
         } else {
             // seeded sample without replacement (stride walk)
-            let n = 8000usize.min(total3);
+            let n = 30000usize.min(total3);
             let start = (part.sub_seed("t3") as usize) % total3;
             let stride = 7919usize; // prime, coprime with the count in practice
             let mut idx = start;
@@ -762,12 +791,12 @@ pub fn checks() -> Vec<Box<dyn SubCheck>> {
         Box::new(vcore::PropCheck {
             property: "C09",
             name: "random",
-            rule: "random expression trees to depth 5 over every construct of the table plus literals (decimal/0x/0o/0b integers, strings with escapes, booleans), arrays, tuples, templates with nested ${}, let with 1-2 bindings, if, ?:; printed minimally and fully parenthesised and with 2 generated filler patterns (blank / comments incl. empty and multi-line) at every token boundary; bracket nesting of the fully parenthesised form capped at 7 (parse time is exponential in it); oracle: tree built from the builtin constructors; non-trivial = >= 2 precedence levels or a comment filler",
-            quick: 2500,
+            rule: "random expression trees to depth 5 over every construct of the table plus literals (decimal/0x/0o/0b integers, strings with escapes, booleans), arrays, tuples, templates with nested ${}, let with 1-2 bindings, if, ?:; printed minimally and fully parenthesised and with 2 generated filler patterns (blank / comments incl. empty and multi-line) at every token boundary; bracket nesting of the fully parenthesised form capped at 12 (the parser limits nesting to 16 levels); oracle: tree built from the builtin constructors; non-trivial = >= 2 precedence levels or a comment filler",
+            quick: 12_000,
             thorough: 400_000,
             max_shrink: 3000,
             strategy: || {
-                (expr_strategy().prop_filter("bracket nesting", |e| bracket_depth(e) <= 7), prop::collection::vec(prop::collection::vec(any::<u16>(), 1..8), 2..3))
+                (expr_strategy().prop_filter("bracket nesting", |e| bracket_depth(e) <= 12), prop::collection::vec(prop::collection::vec(any::<u16>(), 1..8), 2..3))
                     .prop_map(|(e, fills)| ExprCase { e, fills })
             },
             case: run_expr_case,
